@@ -18,7 +18,13 @@
   the C10 model): the option map of a run is fresh, and – fact `extractOptionCopies` – so is the
   storage of its values, hence for every interleaving of the option extractions and node
   executions of any number of runs, every node reads exactly the option groups of its own
-  call, and the caller's `Option.options` arrays are never written.  What is NOT proved: atomicity of the steps, i.e. data-race freedom
+  call, and the caller's `Option.options` arrays are never written.  For RUN ERRORS (section
+  "run errors" below, model EinoV/Model/C09Err.lean): compose/error.go records the node path of a
+  failure by writing into the `*internalError` IN PLACE while it travels up through the enclosing
+  graphs; because – fact `storedRunErrors = []` – no such object is kept in a package-level
+  variable or struct field, every failing run allocates its own, hence for any number of failing
+  runs of any compiled objects of the process and every interleaving, the error a run returned
+  reads exactly what the run reports alone (its own nesting path), for ever.  What is NOT proved: atomicity of the steps, i.e. data-race freedom
   in the Go memory model – that clause is observed only (harness built with -race, child
   process, any race report is a violation).  The write-set is a syntactic
   over-approximation over a fixed package list, trusted as such.
@@ -27,6 +33,8 @@ import EinoV.Model.C09
 import EinoV.Model.C09Opt
 import EinoV.Proofs.C09
 import EinoV.Proofs.C09Opt
+import EinoV.Model.C09Err
+import EinoV.Proofs.C09Err
 import EinoV.Gen.FactsC09
 import EinoV.Expected.C09
 
@@ -320,6 +328,166 @@ theorem memoised_tool_list_interferes :
   decide
 
 end CallOptions
+
+/-! ## run errors (per-run values)
+
+"Each run returns what it would return if it ran alone" includes a run that FAILS.  The error
+of a graph run is an object (`*internalError`) that every enclosing graph writes to in place
+(fact `errorPathMutators`), so the clause holds only if no two runs can reach the same object. -/
+
+section RunErrors
+
+/-- **run_errors_not_stored.** No value of the error type that is mutated in place is kept in a
+    package-level variable, a struct field, a map/slice element or a literal field: the only
+    references to a run error are on the return path of the run that failed. -/
+theorem run_errors_not_stored : FactsC09.storedRunErrors = [] := by decide
+
+theorem facts_match_errors :
+    FactsC09.storedRunErrors = Expected.C09.storedRunErrors ∧
+    FactsC09.errorPathMutators = Expected.C09.errorPathMutators := by decide
+
+/-- **The error a failing run reports names the run's own nesting path** (specification level).
+    The error is built the way compose/error.go builds it – made by the failing graph, the key of
+    the node it came out of prepended by every enclosing graph (`Err.descend`, `Err.wrapNode`) –
+    and it is what the object and the directive alone determine (`Err.progOf`): a node failure in
+    level `l` is `NodeRunError` with path = the keys of the graphs the run is nested in at level
+    `l`, then the node; a failure of the innermost graph run (step limit, branch, fan-in) is
+    `GraphRunError` with path = the keys of all enclosing graph nodes.  A run told to succeed
+    succeeds. -/
+theorem error_path_is_own_nesting_path (o : Err.Obj) (tok : String) :
+    (∀ l, l < o.levels.length →
+      Err.runSpec o tok (.fail l)
+        = .err ⟨"NodeRunError", "boom", Err.nesting o.levels l ++ ["f" ++ toString l]⟩)
+    ∧ (o.site ≠ .none → o.levels ≠ [] →
+      Err.runSpec o tok .site
+        = .err ⟨"GraphRunError", Err.siteCause o.site, Err.nesting o.levels (o.levels.length - 1)⟩)
+    ∧ (∃ v, Err.runSpec o tok .ok = .ok v) := by
+  refine ⟨?_, ?_, ?_⟩
+  · intro l hl
+    have h := Err.descend_fail o.site o.levels 0 l (tok ++ "~" ++ ("f" ++ toString l)) hl
+    simp only [Nat.zero_add] at h
+    simpa [Err.runSpec, Err.nesting_eq] using h
+  · intro hs hne
+    have h := Err.descend_site o.site hs o.levels 0 (tok ++ "~" ++ "site") hne
+    simpa [Err.runSpec, Err.nesting_eq] using h
+  · exact Err.descend_ok o.site o.levels 0 _
+
+/-- the program the error-object machine runs for a failing call is the specification's error,
+    split into the object's initial path and the keys the enclosing graphs prepend -/
+theorem prog_matches_spec (o : Err.Obj) (tok : String) (d : Err.Dir) (p : Err.Prog)
+    (h : Err.progOf o d = some p) :
+    Err.runSpec o tok d = .err ⟨p.tag, p.cause, p.ups ++ p.init⟩ := by
+  obtain ⟨hf, hs, _⟩ := error_path_is_own_nesting_path o tok
+  cases d with
+  | ok => simp [Err.progOf] at h
+  | fail l =>
+    simp only [Err.progOf] at h
+    split at h
+    · rename_i hl
+      cases h
+      exact hf l hl
+    · cases h
+  | site =>
+    simp only [Err.progOf] at h
+    split at h
+    · cases h
+    · rename_i hn
+      have hne : o.levels ≠ [] := by
+        intro e; rw [e] at hn; exact hn rfl
+      cases hsite : o.site <;> rw [hsite] at h <;> simp only [] at h
+      · cases h
+      all_goals
+        cases h
+        have := hs (by rw [hsite]; simp) hne
+        rw [hsite] at this
+        simpa [Err.siteCause] using this
+
+/-- **A failing run's error is its own** – for the code as it is (`storedRunErrors` from /repo),
+    any objects that exist before the runs (`h0`), any number of failing runs (of one compiled
+    object or of several: a run is just its program), and EVERY interleaving of the steps
+    "obtain the error object" / "an enclosing graph prepends its node key": once the schedule
+    has let run `i` return (`ups.length + 1` steps), the error it returned reads exactly
+    ⟨its class, its cause, its own node path⟩ – and since every longer schedule is a schedule,
+    it keeps reading so whatever other runs do afterwards; the objects that existed before are
+    never written. -/
+theorem run_error_is_own (h0 : List Err.Cell) (progs : List (Option Err.Prog)) (sched : List Nat)
+    (i : Nat) (p : Err.Prog) (hp : progs[i]? = some (some p))
+    (hfin : p.ups.length + 1 ≤ sched.count i) :
+    let st := Err.exec (Err.freshOf FactsC09.storedRunErrors) progs sched (Err.St.init h0)
+    Err.read st i = some ⟨p.tag, p.cause, p.ups ++ p.init⟩
+    ∧ ∀ a, a < h0.length → st.heap[a]? = h0[a]? := by
+  have hf : Err.freshOf FactsC09.storedRunErrors = true := by decide
+  rw [hf]
+  have g := Err.good_exec (h0 := h0) (progs := progs) sched _ (Err.good_init h0 progs)
+  refine ⟨?_, g.pre⟩
+  have hpc : ((Err.exec true progs sched (Err.St.init h0)).rs i).pc = p.ups.length + 1 := by
+    rcases Err.pc_exec i p hp sched _ (Err.good_init h0 progs) with h | h
+    · rw [h]; simp only [Err.St.init, Nat.zero_add]; omega
+    · simp [Err.St.init] at h
+  obtain ⟨q, a, h1, h2, _, _, h5⟩ := g.own i (by rw [hpc]; omega)
+  rw [hp] at h1
+  cases h1
+  rw [hpc] at h5
+  simp only [Err.read, h2, Option.bind_some, h5]
+  simp [Err.want]
+
+/-- **Each failing run returns what it returns alone**: the calls of the correspondence check
+    (any objects, any directives), interleaved in any way – the error a call returned is the one
+    the specification gives for that call alone. -/
+theorem failing_run_returns_what_it_returns_alone (h0 : List Err.Cell)
+    (calls : List (Err.Obj × String × Err.Dir)) (sched : List Nat) (i : Nat)
+    (o : Err.Obj) (tok : String) (d : Err.Dir) (p : Err.Prog)
+    (hc : calls[i]? = some (o, tok, d)) (hp : Err.progOf o d = some p)
+    (hfin : p.ups.length + 1 ≤ sched.count i) :
+    ∃ e, Err.runSpec o tok d = .err e ∧
+      Err.read (Err.exec (Err.freshOf FactsC09.storedRunErrors)
+        (calls.map fun c => Err.progOf c.1 c.2.2) sched (Err.St.init h0)) i
+        = some ⟨e.tag, e.cause, e.path⟩ := by
+  refine ⟨⟨p.tag, p.cause, p.ups ++ p.init⟩, prog_matches_spec o tok d p hp, ?_⟩
+  have hpi : (calls.map fun c => Err.progOf c.1 c.2.2)[i]? = some (some p) := by
+    simp [hc, hp]
+  exact (run_error_is_own h0 _ sched i p hpi hfin).1
+
+/-- the runs of the negation witness: a step-limit overrun in a graph nested as node `agent`
+    (twice: two runs of one compiled object), and in graphs nested as `alpha` / `beta` (two
+    different compiled objects) -/
+def overrun (key : String) : Option Err.Prog := some ⟨"GraphRunError", "maxsteps", true, [], [key]⟩
+
+/-- **The "exceeds max steps" error built once ⇒ interference (negation witness).**
+    (`storedRunErrors = ["compose/error.go:var:errRunExceedMaxSteps"]`, i.e. `fresh = false`:
+    the seeded change C09-22.)  Two SUCCESSIVE runs of one compiled object: the second reports
+    `[agent, agent]`, and the error the first run returned earlier now reads the same; alone a
+    run reports `[agent]`; runs of two DIFFERENT compiled objects report each other's node; the
+    package-level object has been written; with per-run allocation the same schedules give every
+    run its own path. -/
+theorem shared_max_steps_error_interferes :
+    (Err.read (Err.exec false [overrun "agent", overrun "agent"] [0, 0, 1, 1]
+        (Err.St.init Err.sharedHeap)) 1).map (·.path) = some ["agent", "agent"]
+    ∧ (Err.read (Err.exec false [overrun "agent", overrun "agent"] [0, 0, 1, 1]
+        (Err.St.init Err.sharedHeap)) 0).map (·.path) = some ["agent", "agent"]
+    ∧ (Err.read (Err.exec false [overrun "agent", overrun "agent"] [0, 0]
+        (Err.St.init Err.sharedHeap)) 0).map (·.path) = some ["agent"]
+    ∧ (Err.read (Err.exec false [overrun "alpha", overrun "beta"] [0, 1, 0, 1]
+        (Err.St.init Err.sharedHeap)) 0).map (·.path) = some ["beta", "alpha"]
+    ∧ (Err.exec false [overrun "alpha", overrun "beta"] [0, 1, 0, 1]
+        (Err.St.init Err.sharedHeap)).heap[0]? ≠ Err.sharedHeap[0]?
+    ∧ (Err.read (Err.exec true [overrun "agent", overrun "agent"] [0, 0, 1, 1]
+        (Err.St.init Err.sharedHeap)) 1).map (·.path) = some ["agent"]
+    ∧ (Err.read (Err.exec true [overrun "alpha", overrun "beta"] [0, 1, 0, 1]
+        (Err.St.init Err.sharedHeap)) 0).map (·.path) = some ["alpha"] := by
+  decide
+
+/-- non-vacuity: a node failure two graphs deep and a step-limit overrun, through the
+    specification -/
+example :
+    Err.render (Err.runSpec ⟨[⟨"", 1, 0⟩, ⟨"agent", 0, 1⟩, ⟨"inner", 0, 0⟩], .loop⟩ "c0" (.fail 2))
+      = "err|NodeRunError|boom|agent,inner,f2"
+    ∧ Err.render (Err.runSpec ⟨[⟨"", 1, 0⟩, ⟨"agent", 0, 1⟩, ⟨"inner", 0, 0⟩], .loop⟩ "c0" .site)
+      = "err|GraphRunError|maxsteps|agent,inner"
+    ∧ Err.render (Err.runSpec ⟨[⟨"", 1, 0⟩, ⟨"agent", 0, 1⟩], .loop⟩ "c0" .ok)
+      = "ok|c0~ok.p0_0.f0.f1.ping.pong.q1_0" := by decide
+
+end RunErrors
 
 /-! ## non-vacuity -/
 
